@@ -311,6 +311,7 @@ func workerMain() {
 		debugOn = true
 		res := e.runCase(Case{ID: sf, Kind: kind, Src: string(b), Gas: gas})
 		fmt.Printf("class=%s msg=%q site=%s\n", className[res.class], res.msg, res.site)
+		pprof.StopCPUProfile()
 		os.Exit(0)
 	}
 	out := bufio.NewWriterSize(os.Stdout, 1<<16)
